@@ -445,8 +445,12 @@ func buildFamilies() []family {
 				pts := make([]extrude.ExtrusionPoint, n)
 				for i := range pts {
 					pts[i] = extrude.ExtrusionPoint{Point: path[i], Thickness: []float64{1, 0.3, 0, 2}[r.Intn(4)]}
-					// uvMode 0: none, 1: all, 2: some (→ no UVs are emitted)
-					if uvMode == 1 || (uvMode == 2 && i%2 == 0) {
+					// uvMode 0: none, 1: all, 2: every other point, 3: a random subset, 4: a prefix of two or more points,
+					// 5: all but one (round 8, C02-M: optional per-point data on an ARBITRARY subset; any point without a
+					// UV means no UVs are emitted)
+					mapped := uvMode == 1 || (uvMode == 2 && i%2 == 0) || (uvMode == 3 && r.Intn(10) < 7) ||
+						(uvMode == 4 && i < 2+int(seed%3)) || (uvMode == 5 && i != int(seed%int64(n)))
+					if mapped {
 						pts[i].UV = &extrude.ExtrusionPointUV{Point: vector2.New(r.Float64(), r.Float64()), Thickness: r.Float64()}
 					}
 					if dirMode == 1 || (dirMode == 2 && r.Intn(2) == 0) {
@@ -456,14 +460,14 @@ func buildFamilies() []family {
 				return []modeling.Mesh{extrude.Polygon(sides, pts)}
 			}}
 	}
-	fs = append(fs, family{name: "extrude.Polygon", gridN: 7 * 6 * 3,
+	fs = append(fs, family{name: "extrude.Polygon", gridN: 7 * 6 * 6,
 		grid: func(k int) param { return polygon(k%7, (k/7)%6, k/42, 0, int64(k)) }, // sides 0..6 × points 0..5 × uv-mode
 		sample: func(r *rand.Rand, th bool) param {
 			mx := 16
 			if th && r.Intn(10) == 0 {
 				mx = 200
 			}
-			return polygon(3+r.Intn(mx), 2+r.Intn(mx), r.Intn(3), r.Intn(3), r.Int63())
+			return polygon(3+r.Intn(mx), 2+r.Intn(mx), r.Intn(6), r.Intn(3), r.Int63())
 		}})
 	circleEx := func(res, n int, radii int, seed int64) param {
 		return param{desc: fmt.Sprintf("extrude.Circle{Resolution %d, %d path points, radii-mode %d, seed %d}", res, n, radii, seed),
